@@ -81,6 +81,12 @@ class C03Replayer(MdibReplayer):
                         apply_tok(st, t)
                 else:
                     apply_tok(ent.state, t)
+        elif src == 'kept_raw':   # the kept entity object as it is (it may have been written in a transaction before)
+            ent = self.kept
+            apply_tok(ent.descriptor, t)
+            for st in (ent.states.values() if ent.is_multi_state else [ent.state]):
+                if st is not None:
+                    apply_tok(st, t)
         elif src in ('kept_upd', 'kept_new'):   # the kept entity, refreshed from the MDIB with update(), then changed
             ent = self.kept
             ent.update()
@@ -135,6 +141,7 @@ def situation_labels(beh) -> set:
             continue
         if act == 'MutateCopy':
             out.add(f'M:{r["src"]}:{kinds[-1] if kinds else "-"}')
+            out.update(r.get('sit', ()))
             continue
         out.update(r.get('sit', ()))
         cur = f'{act}:{r.get("res", "ok")}'
@@ -219,7 +226,14 @@ def descriptor_purposes(run):
     if not any('U:upd:owns-unbound-state:commit' in situation_labels(b) for b in more):
         raise MachineryError('history purpose U:upd:owns-unbound-state:commit not reached in Mdib.tla')
     run.note('history_purposes', len(more))
-    return behs + more
+    # ... and for the kept entity object: keep it, write it in a transaction of its kind, commit / abort, change it
+    res = run_tlc('MdibMC', 'Mdib_kpurpose.cfg', workers=1, timeout=1800)
+    run.add_tlc(res)
+    kept = json_lines(res.stdout, 'BEH')
+    if not any('K:raw:rt:written:Commit' in situation_labels(b) for b in kept):
+        raise MachineryError('kept-entity purpose K:raw:rt:written:Commit not reached in Mdib.tla')
+    run.note('kept_entity_purposes', len(kept))
+    return behs + more + kept
 
 
 def lifecycle_behaviours(run):
